@@ -12,7 +12,8 @@ ID = "C02"
 MODULE = "HttpcoreModel.Props.C02"
 THEOREMS = [f"Httpcore.C02.{n}" for n in (
     "h1_segmentation", "h1_segmentation_open", "h1_interim_skipped", "h1_body_content_length", "h1_truncation_cl",
-    "h1_truncation_head", "h1_body_until_close", "headGives_of_extract", "extract_head_status")]
+    "h1_truncation_head", "h1_body_until_close", "headGives_of_extract", "extract_head_status",
+    "h2_body_exact", "h2_truncation", "recv_is_strict")]
 TRUSTED = [
     "Lean 4.33 kernel; axioms per theorem under coverage.theorems",
     "hand-written byte-level model of h11 0.14's response reader and of httpcore's receive loops (H1Read/H1Obs), tied by differential execution on structured, cut and malformed streams (this run)",
@@ -98,6 +99,56 @@ def oracle_truncated(rec, r, segs, impl, cut, total, head_len):
         rec.fail("truncation-silent", {"class": r["framing"]}, dict(payload, got_len=len(impl["body"])))
     elif impl["outcome"] != "error:RemoteProtocolError":
         rec.fail("truncation-wrong-error", {"class": impl["outcome"]}, payload)
+
+
+H2_PROFILE = dict(max_connections=1, init_max_streams=10, p_rst=0.25, p_eof=0.05, downs=[0, 1, 10, 3000, 70000], ups=[0, 0, 5],
+                  padding=True, p_ping=0.1)
+
+
+def run_h2(ctx, rec, driver):
+    """HTTP/2: the server sends HEADERS / DATA pieces (also padded) / END_STREAM / RST_STREAM (any code, NO_ERROR included) / EOF in any
+    interleaving and segmentation (down to one byte, i.e. inside frame headers); the caller must get exactly the DATA framed before
+    END_STREAM or an error; per stream the outcome is also compared with the model's `recv` on the events the server emitted."""
+    import h2x
+    rng = ctx.rng
+    n = 150 if ctx.quick else 4000
+    lines, meta = [], []
+    for i in range(n):
+        cfg = dict(H2_PROFILE, callers=rng.randint(1, 4), segment=rng.choice(["whole", "coarse", "fine", "fine"]), coalesce=rng.random() < 0.3)
+        seed = rng.randrange(1 << 30)
+        rt = ("asyncio", "trio")[i % 2]
+        ex = h2x.run_one(rt, cfg, seed)
+        rec.evals += 1
+        rec.distinct.add(("h2x", rt, tuple(map(str, ex.trace))))
+        rec.dist["h2:schedules"] += 1
+        for clause, detail in ex.violations:
+            if clause.startswith(("C02:", "C12:wrong-response", "C12:foreign-data")):
+                rec.fail(clause, {"proto": "h2"}, {"runtime": rt, "cfg": cfg, "seed": seed, "detail": detail,
+                                                    "trace": [list(map(str, t)) for t in ex.trace][-60:], "how_to_replay": "h2x.run_one(runtime, cfg, seed)"})
+        eof = any(p.server_closed for p in ex.peers)
+        for c in ex.callers:
+            rec.dist[f"h2:outcome:{c.outcome}"] += 1
+            where = ex.request_peers(c)
+            if len(where) != 1 or c.mode == "abandon" or ex.inconclusive:
+                continue
+            st = ex.peers[where[0][0]].streams[where[0][1]]
+            if st.sent_events:
+                lines.append("h2recv " + ",".join(st.sent_events))
+                meta.append((c.outcome, len(c.body or b"") if c.outcome == "ok" else None, eof, st.sent_events, rt, cfg, seed, c.idx))
+    answers = driver.run(lines) if driver and lines else []
+    for ans, (outcome, blen, eof, evs, rt, cfg, seed, idx) in zip(answers, meta):
+        rec.dist["h2:model:" + ans.split()[0]] += 1
+        want = {"complete": "ok", "failed": "error:RemoteProtocolError", "needmore": "error:RemoteProtocolError" if eof else None}[ans.split()[0]]
+        ok = True
+        if ans.startswith("complete"):
+            ok = outcome == "ok" and blen == int(ans.split()[1])
+        elif want is not None:
+            ok = outcome == want
+        else:
+            ok = outcome != "ok"
+        if not ok:
+            rec.disagree("h2-receive", {"events": evs, "model": ans, "impl_outcome": outcome, "impl_body_len": blen, "runtime": rt, "cfg": cfg,
+                                        "seed": seed, "caller": idx})
 
 
 def mutate(rng, data):
@@ -188,8 +239,9 @@ def run(ctx, driver):
         if len(rec.samples) < 3 and kind == "crlf-cuts" and r["framing"] == "chunked":
             rec.samples.append({"kind": kind, "segments": [repr(s)[:60] for s in segs][:8], "impl_outcome": impl["outcome"],
                                 "impl_status": impl["status"], "body_len": len(impl["body"]), "model": (ans or "")[:160]})
+    run_h2(ctx, rec, driver)
     if rec.disagreements:
-        ctx.broken.append({"kind": "correspondence", "family": "C02/B2 H1 reader", "first": rec.disagreements[:3],
+        ctx.broken.append({"kind": "correspondence", "family": "C02/B2 H1 reader + H2 receive", "first": rec.disagreements[:3],
                            "count_capped": len(rec.disagreements)})
     return {
         "evaluations": rec.evals,
